@@ -71,7 +71,7 @@ def run_model(pid, module, consts_A, consts_B, consts_S, nsetup, walk_len, nwalk
 
 def replay(pid, path):
     r = json.load(open(path))
-    R = pipeline.replay_and_validate(pid + "/replay", r["init"], [(r["hist"], r.get("from", 1))], shards=1)
+    R = pipeline.replay_and_validate(pid + "/replay", r["init"], [(r["hist"], r.get("from", 1), r.get("tid", 1))], shards=1, seed=r.get("seed", 0))
     last = R["sample"]["steps"][-1]
     print(json.dumps({k: last[k] for k in ("op", "exc", "res")}, indent=1)[:3000])
     return {"fails": R["fails"], "init": r["init"], "evidence": None}
